@@ -280,7 +280,7 @@ def mailParams (cfg : Cfg) : List (Bytes × Bytes) → MailOpts → Bool → POu
   | [], o, bm => .ok (o, bm)
   | (key, value) :: rest, o, bm =>
     if key == "SIZE".b then
-      match parseUintDec value 32 with
+      match parseUintDec value 63 with
       | none => .refuse 501 ⟨5, 5, 4⟩ "Unable to parse SIZE as an integer"
       | some size =>
         if cfg.maxMsg > 0 && size > cfg.maxMsg then .refuse 552 ⟨5, 3, 4⟩ "Max message size exceeded"
@@ -338,6 +338,10 @@ def mailCall (s : S) (id : Nat) (frm : Bytes) (opts : MailOpts) : S × Bool :=
   | .panic => (s, true)
   | e => (write s (renderError 451 ⟨4, 0, 0⟩ e), false)
 
+/-- the configuration as the MAIL parameter switch sees it: REQUIRETLS is available only on a connection protected by TLS
+    (RFC 8689; it is advertised only there, see `caps`) -/
+def effCfg (s : S) : Cfg := { s.cfg with reqtls := s.cfg.reqtls && s.c.tls }
+
 def setBinarymime (s : S) (b : Bool) : S := { s with c := { s.c with binarymime := b } }
 
 def handleMail (s : S) (arg : Bytes) : S × Bool :=
@@ -353,7 +357,7 @@ def handleMail (s : S) (arg : Bytes) : S × Bool :=
         match parseArgs rest with
         | none => (reply s 501 ⟨5, 5, 4⟩ "Unable to parse MAIL ESMTP parameters", false)
         | some args =>
-          match mailParams s.cfg args {} false with
+          match mailParams (effCfg s) args {} false with
           | .refuse code enh text => (reply (setBinarymime s false) code enh text, false)
           | .ok (opts, bm) =>
             match s.c.session with
